@@ -10,7 +10,7 @@
  "name": "unix_write_blk64",
  "props": ["C17"],
  "level": "U/k",
- "tier": "quick",
+ "tier": "wip",
  "harness": "h_write",
  "enforce": ["unix_write_blk64"],
  "replace": ["raw_write_blk", "flush_cached_blocks"],
@@ -31,7 +31,7 @@
  "name": "unix_read_blk64",
  "props": ["C17"],
  "level": "U/k",
- "tier": "quick",
+ "tier": "wip",
  "harness": "h_read",
  "enforce": ["unix_read_blk64"],
  "replace": ["raw_write_blk", "raw_read_blk", "flush_cached_blocks"],
